@@ -33,6 +33,15 @@ const (
 	introspectType              = "type"
 )
 
+// The kinds of types as reported by introspection
+const (
+	introspectKindObject      = "OBJECT"
+	introspectKindInterface   = "INTERFACE"
+	introspectKindUnion       = "UNION"
+	introspectKindEnum        = "ENUM"
+	introspectKindInputObject = "INPUT_OBJECT"
+)
+
 // QueryField is a hook to add gateway-level fields to a gateway. Limited to only being able to resolve
 // an id of an already existing type in order to keep business logic out of the gateway.
 type QueryField struct {
@@ -318,6 +327,8 @@ func (g *Gateway) introspectType(schemaType *introspection.Type, selectionSet as
 	// a place to store the result
 	result := map[string]interface{}{}
 
+	kind := schemaType.Kind()
+
 	for _, field := range graphql.SelectedFields(selectionSet) {
 		// the default behavior is to ignore deprecated fields
 		includeDeprecated := false
@@ -334,16 +345,37 @@ func (g *Gateway) introspectType(schemaType *introspection.Type, selectionSet as
 			result[field.Alias] = schemaType.Name()
 		case introspectDescription:
 			result[field.Alias] = schemaType.Description()
+		// the following fields are null for the kinds of types they do not apply to
 		case introspectFields:
-			result[field.Alias] = g.introspectFieldSlice(schemaType.Fields(includeDeprecated), field.SelectionSet)
+			if kind == introspectKindObject || kind == introspectKindInterface {
+				result[field.Alias] = g.introspectFieldSlice(schemaType.Fields(includeDeprecated), field.SelectionSet)
+			} else {
+				result[field.Alias] = nil
+			}
 		case introspectInterfaces:
-			result[field.Alias] = g.introspectTypeSlice(schemaType.Interfaces(), field.SelectionSet)
+			if kind == introspectKindObject || kind == introspectKindInterface {
+				result[field.Alias] = g.introspectTypeSlice(g.interfacesOf(schemaType), field.SelectionSet)
+			} else {
+				result[field.Alias] = nil
+			}
 		case introspectPossibleTypes:
-			result[field.Alias] = g.introspectTypeSlice(schemaType.PossibleTypes(), field.SelectionSet)
+			if kind == introspectKindInterface || kind == introspectKindUnion {
+				result[field.Alias] = g.introspectTypeSlice(schemaType.PossibleTypes(), field.SelectionSet)
+			} else {
+				result[field.Alias] = nil
+			}
 		case introspectEnumValues:
-			result[field.Alias] = g.introspectEnumValueSlice(schemaType.EnumValues(includeDeprecated), field.SelectionSet)
+			if kind == introspectKindEnum {
+				result[field.Alias] = g.introspectEnumValueSlice(schemaType.EnumValues(includeDeprecated), field.SelectionSet)
+			} else {
+				result[field.Alias] = nil
+			}
 		case introspectInputFields:
-			result[field.Alias] = g.introspectInputValueSlice(schemaType.InputFields(), field.SelectionSet)
+			if kind == introspectKindInputObject {
+				result[field.Alias] = g.introspectInputValueSlice(schemaType.InputFields(), field.SelectionSet)
+			} else {
+				result[field.Alias] = nil
+			}
 		case introspectOfType:
 			result[field.Alias] = g.introspectType(schemaType.OfType(), field.SelectionSet)
 		case "specifiedByURL":
@@ -353,6 +385,25 @@ func (g *Gateway) introspectType(schemaType *introspection.Type, selectionSet as
 			} else {
 				result[field.Alias] = nil
 			}
+		}
+	}
+	return result
+}
+
+// interfacesOf returns the interfaces that an object or an interface type implements
+func (g *Gateway) interfacesOf(schemaType *introspection.Type) []introspection.Type {
+	result := []introspection.Type{}
+	name := schemaType.Name()
+	if name == nil {
+		return result
+	}
+	definition, ok := g.schema.Types[*name]
+	if !ok {
+		return result
+	}
+	for _, iface := range definition.Interfaces {
+		if ifaceDefinition, ok := g.schema.Types[iface]; ok {
+			result = append(result, *introspection.WrapTypeFromDef(g.schema, ifaceDefinition))
 		}
 	}
 	return result
